@@ -1,3 +1,487 @@
-/- C03 property theorems (not written yet) -/
+/-
+C03 — URL matching agrees with the declarative meaning of the rules.
+
+Model: `Model/Routing*.lean` (rule compilation, the state machine matcher with exactly the code's
+control flow, `MapAdapter.match`). Reference: `Model/RoutingSpec.lean` — `walkVia` / `admits`, a
+recogniser for one rule at a time, independent of every other rule, and the specificity order.
+All theorems are about arbitrary rule lists, paths, methods: no bound anywhere.
+Helper lemmas: `Lemmas/Routing*.lean`.
+-/
+import WzVerif.Lemmas.RoutingTop
+import WzVerif.Gen.RoutingSamples
 namespace Wz.Props.C03
+open Wz Wz.Routing
+
+/-! ### generated tables -/
+
+/-- class-level `weight` / `part_isolating` of the model, by registered name -/
+def classWeight : String → Nat
+  | "path" => 200
+  | "int" => 50
+  | "float" => 50
+  | _ => 100
+
+def classIsolating : String → Bool
+  | "path" => false
+  | _ => true
+
+/-- The live `DEFAULT_CONVERTERS` table (name, class regex, weight, part_isolating; regenerated on
+every run) is the table the model uses. -/
+theorem conv_table_matches_model :
+    Gen.Routing.convTable.all (fun (n, re, w, pi) => classRegex n == re && classWeight n == w && classIsolating n == pi) = true ∧
+    Gen.Routing.convTable.map (·.1) = ["default", "string", "any", "path", "int", "float", "uuid"] := by
+  decide +kernel
+
+/-- ... and the model's per-instance weight / part_isolating are the class-level ones. -/
+theorem conv_weight_by_class (c : Conv) :
+    c.weight = classWeight c.className ∧ c.partIsolating = classIsolating c.className := by
+  cases c <;> exact ⟨rfl, rfl⟩
+
+/-- Instantiated live converters (string with length options, int/float with signed, fixed_digits,
+min/max, any with special characters, uuid, path): the regex text, weight and part_isolating the
+model computes are the live ones. -/
+theorem conv_samples_match_model :
+    Gen.RoutingSamples.samples.all (fun (c, re, w, pi) => c.regexText == re && c.weight == w && c.partIsolating == pi) = true := by
+  decide +kernel
+
+/-- `.` (the path converter's `.*?`) rejects exactly LF in the live `re`. -/
+theorem dot_rejects_lf : Gen.Routing.dotRejects = [10] := by decide
+
+/-! ### conversions: regex acceptance implies `to_python` success (outside the F03 family) -/
+
+/-- For string, any, uuid, path, float without min/max and int without fixed_digits/min/max,
+`to_python` succeeds on every text (in particular on every text the regex accepts). -/
+theorem toPython_total (c : Conv) (h : c.total = true) (s : Str) (_ : regexAccepts c s = true) :
+    (toPython c s).isSome = true :=
+  Conv.total_ok h s
+
+example : (Conv.int 0 true none none).total = true ∧ regexAccepts (.int 0 true none none) "-12".toList = true := by
+  decide +kernel
+
+/-- The complement is real: `int(fixed_digits=3)` and `int(max=5)` reject text their regex accepts. -/
+theorem toPython_partial_witness :
+    regexAccepts (.int 3 false none none) "12".toList = true ∧ toPython (.int 3 false none none) "12".toList = none ∧
+    regexAccepts (.int 0 false none (some 5)) "12".toList = true ∧ toPython (.int 0 false none (some 5)) "12".toList = none := by
+  decide +kernel
+
+/-! ### soundness -/
+
+/-- **match_sound.** Whatever `MapAdapter.match` returns — a rule with converted values — that rule
+is one of the map's (non-`build_only`) rules and, taken alone, admits the request path for the
+request method with exactly those values. -/
+theorem match_sound {cfg : MapCfg} {specs : List RuleSpec} {m : RMap} (hm : mkMap cfg specs = some m)
+    (a : Adapter) (pathInfo : Str) (method : Option Str) (qa : QueryArgs) (ws : Option Bool)
+    {r : Rule} {vals : List (Str × Value)}
+    (h : matchAdapter m a pathInfo method qa ws = .matched r vals) :
+    r ∈ m.rules ∧ r.spec.buildOnly = false ∧
+      admits r (reqOf a method ws) (domainPartOf m.cfg a) (pathPart pathInfo) = some vals := by
+  have hb := mkMap_built hm
+  obtain ⟨vs, hfound, res, hres, hvals⟩ := matchSM_ok_inv (matchAdapter_matched_inv h)
+  have hs := dfs_sound (reqOf a method ws) m.root (segments (domainPartOf m.cfg a) (pathPart pathInfo)) []
+  rw [hfound] at hs
+  obtain ⟨hok, ps, vs', via, hi, hv, hw, ha⟩ := hs
+  rw [hb.root_eq, inTrie_buildRoot] at hi
+  obtain ⟨hmem, hbo, rfl⟩ := hi
+  refine ⟨hmem, hbo, ?_⟩
+  simp only [List.nil_append] at hv
+  subst hv
+  simp [admits, hok, admitsGroups_of_walkVia hw ha, hres, hvals]
+
+/-- the adapter of the examples: `map.bind("example.org")` -/
+def adapter0 : Adapter :=
+  { serverName := "example.org".toList, scriptName := "/".toList, subdomain := some [], urlScheme := "http".toList,
+    defaultMethod := "GET".toList, queryArgs := .none }
+
+/-- outcome of `Map(specs, **cfg).bind("example.org").match(path, method)` -/
+def run (cfg : MapCfg) (specs : List RuleSpec) (path : String) (method : String) : Outcome :=
+  match mkMap cfg specs with
+  | some m => matchAdapter m adapter0 path.toList (some method.toList) .none none
+  | none => .error "unsupported"
+
+def specsF03 : List RuleSpec :=
+  [ { toks := [.slash, .var (.int 3 false none none) "x".toList], endpoint := "a".toList },
+    { toks := [.slash, .var (.string 1 none none) "y".toList], endpoint := "b".toList } ]
+
+-- non-vacuity: `/123` is matched on the F03 map
+example : (run {} specsF03 "/123" "GET").isMatched = true := by decide +kernel
+
+/-! ### NotFound -/
+
+/-- what `match_notfound_only_if_partial` concludes for one rule -/
+def NotAdmitted (r : Rule) (q : Req) (dom path : Str) : Prop :=
+  admitsPath r dom path = false ∧ admits r q dom path = none ∧ (ruleOK q r = true → wantsSlash r dom path = false)
+
+theorem notAdmitted_of_none {m : RMap} {cfg} (hb : Built cfg m) {q : Req} {dom path : Str}
+    (hmeth : ∀ r ∈ m.rules, r.methodsOK = true)
+    (hres : (dfs q m.root (segments dom path) []).res = .none)
+    (hms : (dfs q m.root (segments dom path) []).ms = [])
+    (hwsm : (dfs q m.root (segments dom path) []).wsm = false) :
+    ∀ r ∈ m.rules, r.spec.buildOnly = false → NotAdmitted r q dom path := by
+  intro r hr hbo
+  have hwf : WF m.root := by rw [hb.root_eq]; exact WF.buildRoot _
+  have hi : InTrie m.root r.parts r := by rw [hb.root_eq, inTrie_buildRoot]; exact ⟨hr, hbo, rfl⟩
+  have hcomp := dfs_complete q m.root hwf _ _ hres r.parts r
+  have hacc := dfs_acc_complete q m.root hwf _ _ hres r.parts r
+  -- a counted admission is impossible
+  have hcnt : ∀ via, Counted r via → walkVia via r.parts (segments dom path) = none := by
+    intro via hc
+    cases hw : walkVia via r.parts (segments dom path) with
+    | none => rfl
+    | some vs =>
+      exfalso
+      have hsome : (walkVia via r.parts (segments dom path)).isSome = true := by rw [hw]; rfl
+      obtain ⟨h1, h2⟩ := hacc via hi hc hsome
+      by_cases hmo : methodOK q r = true
+      · by_cases hws : r.websocket = q.websocket
+        · have hok : ruleOK q r = true := by simp [ruleOK, hmo, hws]
+          have := hcomp via hi hok (by rintro rfl; rcases hc with h | ⟨_, h⟩; cases h; exact h)
+          rw [hw] at this; cases this
+        · have := h2 hmo hws
+          rw [hwsm] at this; cases this
+      · have hmo : methodOK q r = false := by simpa using hmo
+        have hmr := hmeth r hr
+        simp only [methodOK] at hmo
+        simp only [Rule.methodsOK] at hmr
+        cases hmm : r.methods with
+        | none => simp [hmm] at hmo
+        | some ms =>
+          simp only [hmm] at hmr
+          cases ms with
+          | nil => simp at hmr
+          | cons x t =>
+            have := h1 (by simp [methodOK, hmm] at hmo ⊢; exact hmo) x (by simp [hmm])
+            rw [hms] at this; cases this
+  have hdirect := hcnt .direct (.inl rfl)
+  have htrail : r.strict = false → walkVia .trailing r.parts (segments dom path) = none :=
+    fun hs => hcnt .trailing (.inr ⟨rfl, hs⟩)
+  have hns : ruleOK q r = true → walkVia .noslash r.parts (segments dom path) = none :=
+    fun hok => hcomp .noslash hi hok (by intro h; cases h)
+  refine ⟨?_, ?_, ?_⟩
+  · simp only [admitsPath, hdirect, Option.isSome_none, Bool.false_or, Bool.and_eq_false_imp, Bool.not_eq_true']
+    intro hs; rw [htrail hs]; rfl
+  · simp only [admits]
+    split
+    · rename_i hok
+      simp only [admitsGroups, hdirect]
+      cases hs : r.strict with
+      | true => simp
+      | false => simp [htrail hs, hns hok]
+    · rfl
+  · intro hok
+    simp [wantsSlash, hns hok]
+
+/-- the first search of a `NoMatch` outcome returned `None`, given that conversions cannot fail -/
+theorem first_search_none {m : RMap} {cfg} (hb : Built cfg m) (hconv : ConvOK m.rules) {q : Req} {dom path : Str}
+    {ms wsm} (h : matchSM m.root m.cfg.mergeSlashes m.cfg.redirectDefaults q dom path = .noMatch ms wsm) :
+    (dfs q m.root (segments dom path) []).res = .none ∧
+    ((m.cfg.mergeSlashes = false ∧ ms = (dfs q m.root (segments dom path) []).ms ∧ wsm = (dfs q m.root (segments dom path) []).wsm) ∨
+     (m.cfg.mergeSlashes = true ∧
+        ms = (dfs q m.root (segments dom path) []).ms ++ (dfs q m.root (segments dom (mergeSlashes path)) []).ms ∧
+        wsm = ((dfs q m.root (segments dom path) []).wsm || (dfs q m.root (segments dom (mergeSlashes path)) []).wsm))) := by
+  rcases matchSM_noMatch_inv h with ⟨r, vs, hf, hc⟩ | ⟨hn, hrest⟩
+  · exfalso
+    have hs := dfs_sound q m.root (segments dom path) []
+    rw [hf] at hs
+    obtain ⟨_, ps, vs', via, hi, hv, hw, _⟩ := hs
+    rw [hb.root_eq, inTrie_buildRoot] at hi
+    obtain ⟨hmem, _, rfl⟩ := hi
+    simp only [List.nil_append] at hv
+    subst hv
+    have hacc := walkVia_accepts hw
+    rw [hb.kinds r hmem] at hacc
+    have := convertValues_isSome hacc (hconv r hmem)
+    rw [hc] at this; cases this
+  · refine ⟨hn, ?_⟩
+    rcases hrest with ⟨h1, h2, h3⟩ | ⟨h1, h2, h3, _⟩
+    · exact .inl ⟨h1, h2, h3⟩
+    · exact .inr ⟨h1, h2, h3⟩
+
+/-- **match_notfound_only_if_partial.** When `MapAdapter.match` raises `NotFound`, no rule of the map
+admits the path — directly or through an extra final slash — for ANY method or protocol; no rule
+admits it in any way for the request method; and no strict branch rule fit for the request would admit
+it with a final slash added (no redirect was due).
+Hypotheses: `ConvOK` — every converter's `to_python` accepts what its regex accepts (proved for all
+converters without fixed_digits/min/max, `convOK_of_total`; the complement is finding F03) — and
+method sets are non-empty when given. -/
+theorem match_notfound_only_if_partial {cfg : MapCfg} {specs : List RuleSpec} {m : RMap}
+    (hm : mkMap cfg specs = some m) (hconv : ConvOK m.rules) (hmeth : ∀ r ∈ m.rules, r.methodsOK = true)
+    (a : Adapter) (pathInfo : Str) (method : Option Str) (qa : QueryArgs) (ws : Option Bool)
+    (h : matchAdapter m a pathInfo method qa ws = .notFound) :
+    ∀ r ∈ m.rules, r.spec.buildOnly = false →
+      NotAdmitted r (reqOf a method ws) (domainPartOf m.cfg a) (pathPart pathInfo) := by
+  have hb := mkMap_built hm
+  obtain ⟨hres, hrest⟩ := first_search_none hb hconv (matchAdapter_notFound_inv h)
+  apply notAdmitted_of_none hb hmeth hres
+  · rcases hrest with ⟨_, h2, _⟩ | ⟨_, h2, _⟩
+    · exact h2.symm
+    · exact (List.append_eq_nil_iff.1 h2.symm).1
+  · rcases hrest with ⟨_, _, h3⟩ | ⟨_, _, h3⟩
+    · exact h3.symm
+    · have := h3.symm; simp only [Bool.or_eq_false_iff] at this; exact this.1
+
+def specsPlain : List RuleSpec :=
+  [ { toks := [.slash, .var (.int 0 false none none) "x".toList], endpoint := "a".toList },
+    { toks := [.slash, .lit "a".toList, .slash], endpoint := "b".toList, methods := some ["POST".toList] } ]
+
+-- non-vacuity: a map with total converters and non-empty method sets, and a path that is NotFound
+example : (run {} specsPlain "/zz/y" "GET").isNotFound = true ∧
+    (match mkMap {} specsPlain with
+     | some m => m.rules.all (fun r => r.convTotal && r.methodsOK)
+     | none => false) = true := by decide +kernel
+
+/-- **F03 (negation witness).** Without the conversion hypothesis the statement is false on the
+unchanged code: `Map([Rule('/<int(fixed_digits=3):x>'), Rule('/<string:y>')])`, `/12` raises
+`NotFound` although the string rule admits the path (the int rule is selected first, its `to_python`
+rejects `12`, and the search does not backtrack). -/
+theorem match_notfound_only_if_full_false :
+    ¬ (∀ (cfg : MapCfg) (specs : List RuleSpec) (m : RMap) (a : Adapter) (p : Str),
+        mkMap cfg specs = some m → (∀ r ∈ m.rules, r.methodsOK = true) →
+        matchAdapter m a p none .none none = .notFound →
+        ∀ r ∈ m.rules, admitsPath r (domainPartOf m.cfg a) (pathPart p) = false) := by
+  intro H
+  have hw : (match mkMap {} specsF03 with
+      | some m => (matchAdapter m adapter0 "/12".toList none .none none).isNotFound &&
+          m.rules.all (fun r => r.methodsOK) &&
+          m.rules.any (fun r => admitsPath r (domainPartOf m.cfg adapter0) (pathPart "/12".toList))
+      | none => false) = true := by decide +kernel
+  cases hmk : mkMap {} specsF03 with
+  | none => simp [hmk] at hw
+  | some m =>
+    simp only [hmk, Bool.and_eq_true, List.all_eq_true, List.any_eq_true] at hw
+    obtain ⟨⟨h1, h2⟩, r, hr, h3⟩ := hw
+    have := H {} specsF03 m adapter0 "/12".toList hmk h2 (Outcome.eq_notFound h1) r hr
+    rw [this] at h3; cases h3
+
+def specsF03b : List RuleSpec :=
+  [ { toks := [.slash, .lit "a".toList, .slash], endpoint := "a".toList, methods := some ["POST".toList] } ]
+
+/-- **F03b (negation witness).** `NotFound` does not exclude that a rule admits the path for another
+method in the `noslash` way: `Map([Rule('/a/', methods=['POST'])], strict_slashes=False)`: `POST /a`
+is matched by the rule, `GET /a` raises `NotFound` (not `MethodNotAllowed`). Hence the theorem above
+speaks of direct / extra-slash admission for any method and of every admission for the request method. -/
+theorem match_notfound_any_method_full_false :
+    ¬ (∀ (cfg : MapCfg) (specs : List RuleSpec) (m : RMap) (a : Adapter) (p : Str) (q' : Req),
+        mkMap cfg specs = some m → ConvOK m.rules → (∀ r ∈ m.rules, r.methodsOK = true) →
+        matchAdapter m a p none .none none = .notFound →
+        ∀ r ∈ m.rules, admits r q' (domainPartOf m.cfg a) (pathPart p) = none) := by
+  intro H
+  have hw : (match mkMap { strictSlashes := false } specsF03b with
+      | some m => (matchAdapter m adapter0 "/a".toList none .none none).isNotFound &&
+          m.rules.all (fun r => r.methodsOK && r.convTotal) &&
+          m.rules.any (fun r => (admits r ⟨"POST".toList, false⟩ (domainPartOf m.cfg adapter0) (pathPart "/a".toList)).isSome)
+      | none => false) = true := by decide +kernel
+  cases hmk : mkMap { strictSlashes := false } specsF03b with
+  | none => simp [hmk] at hw
+  | some m =>
+    simp only [hmk, Bool.and_eq_true, List.all_eq_true, List.any_eq_true] at hw
+    obtain ⟨⟨h1, h2⟩, r, hr, h3⟩ := hw
+    have := H _ specsF03b m adapter0 "/a".toList ⟨"POST".toList, false⟩ hmk
+      (convOK_of_total (fun r hr => (h2 r hr).2)) (fun r hr => (h2 r hr).1) (Outcome.eq_notFound h1) r hr
+    rw [this] at h3; cases h3
+
+
+/-! ### MethodNotAllowed -/
+
+/-- the path has no doubled slash the matcher's second pass would merge, or merging is off -/
+def NoMerge (m : RMap) (path : Str) : Prop := m.cfg.mergeSlashes = false ∨ mergeSlashes path = path
+
+/-- rule `r` admits the path for another method: directly or through an extra final slash, and the
+request method is not in its method set (what `have_match_for` collects) -/
+def AdmitsOtherMethod (r : Rule) (q : Req) (dom path : Str) : Prop :=
+  admitsPath r dom path = true ∧ methodOK q r = false
+
+theorem admitsPath_iff {r : Rule} {dom path : Str} :
+    admitsPath r dom path = true ↔ ∃ via, Counted r via ∧ (walkVia via r.parts (segments dom path)).isSome = true := by
+  simp only [admitsPath, Bool.or_eq_true, Bool.and_eq_true, Bool.not_eq_true']
+  constructor
+  · rintro (h | ⟨hs, h⟩)
+    · exact ⟨.direct, .inl rfl, h⟩
+    · exact ⟨.trailing, .inr ⟨rfl, hs⟩, h⟩
+  · rintro ⟨via, (rfl | ⟨rfl, hs⟩), h⟩
+    · exact .inl h
+    · exact .inr ⟨hs, h⟩
+
+theorem matchSM_of_first_none {m : RMap} {q : Req} {dom path : Str} (hnm : NoMerge m path)
+    (hres : (dfs q m.root (segments dom path) []).res = .none) :
+    ∃ ms wsm, matchSM m.root m.cfg.mergeSlashes m.cfg.redirectDefaults q dom path = .noMatch ms wsm ∧
+      ∀ x, x ∈ ms ↔ x ∈ (dfs q m.root (segments dom path) []).ms := by
+  simp only [segments] at hres
+  cases hmg : m.cfg.mergeSlashes with
+  | false =>
+    refine ⟨_, _, by simp only [matchSM, hres]; rfl, fun x => Iff.rfl⟩
+  | true =>
+    rcases hnm with h | h
+    · rw [hmg] at h; cases h
+    · refine ⟨_, _, by simp only [matchSM, hres, h, if_true]; rfl, ?_⟩
+      intro x
+      simp [segments]
+
+/-- **match_405_iff_partial.** `MapAdapter.match` raises `MethodNotAllowed` exactly when no rule admits
+the path for the request (in any way, and no slash redirect is due) while some rule admits it
+— directly or through an extra final slash — for another method.
+Hypotheses: `ConvOK` (F03), non-empty method sets, and the path is not subject to slash merging
+(`NoMerge`: with merging the second pass adds the methods of rules admitting the merged path).
+The `noslash` admissions of non-strict branch rules are not counted by the code: finding F03b,
+`match_405_full_false` below. -/
+theorem match_405_iff_partial {cfg : MapCfg} {specs : List RuleSpec} {m : RMap}
+    (hm : mkMap cfg specs = some m) (hconv : ConvOK m.rules) (hmeth : ∀ r ∈ m.rules, r.methodsOK = true)
+    (a : Adapter) (pathInfo : Str) (method : Option Str) (qa : QueryArgs) (ws : Option Bool)
+    (hnm : NoMerge m (pathPart pathInfo)) :
+    (∃ ms, matchAdapter m a pathInfo method qa ws = .methodNotAllowed ms) ↔
+      ((∀ r ∈ m.rules, r.spec.buildOnly = false →
+          admits r (reqOf a method ws) (domainPartOf m.cfg a) (pathPart pathInfo) = none ∧
+          (ruleOK (reqOf a method ws) r = true → wantsSlash r (domainPartOf m.cfg a) (pathPart pathInfo) = false)) ∧
+       ∃ r ∈ m.rules, r.spec.buildOnly = false ∧
+          AdmitsOtherMethod r (reqOf a method ws) (domainPartOf m.cfg a) (pathPart pathInfo)) := by
+  have hb := mkMap_built hm
+  have hwf : WF m.root := by rw [hb.root_eq]; exact WF.buildRoot _
+  constructor
+  · rintro ⟨ms, h⟩
+    obtain ⟨ms0, wsm, hsm, hne, _⟩ := matchAdapter_405_inv h
+    obtain ⟨hres, hrest⟩ := first_search_none hb hconv hsm
+    constructor
+    · intro r hr hbo
+      have hi : InTrie m.root r.parts r := by rw [hb.root_eq, inTrie_buildRoot]; exact ⟨hr, hbo, rfl⟩
+      have hcomp := dfs_complete (reqOf a method ws) m.root hwf _ _ hres r.parts r
+      constructor
+      · simp only [admits]
+        split
+        · rename_i hok
+          have h1 := hcomp .direct hi hok (by intro h; cases h)
+          have h3 := hcomp .noslash hi hok (by intro h; cases h)
+          simp only [admitsGroups, h1]
+          cases hs : r.strict with
+          | true => simp
+          | false => simp [hcomp .trailing hi hok (fun _ => hs), h3]
+        · rfl
+      · intro hok
+        simp [wantsSlash, hcomp .noslash hi hok (by intro h; cases h)]
+    · -- some method was recorded by the first search
+      have hms1 : (dfs (reqOf a method ws) m.root (segments (domainPartOf m.cfg a) (pathPart pathInfo)) []).ms ≠ [] := by
+        rcases hrest with ⟨_, h2, _⟩ | ⟨_, h2, _⟩
+        · rw [← h2]; exact hne
+        · rcases hnm with h | h
+          · rename_i hmg _; rw [h] at hmg; cases hmg
+          · rw [h] at h2
+            intro h0; rw [h0] at h2; exact hne h2
+      obtain ⟨x, hx⟩ := List.exists_mem_of_ne_nil _ hms1
+      obtain ⟨ps, r, via, hi, hmo, _, hc, hw⟩ := dfs_ms_sound _ _ _ _ _ hx
+      rw [hb.root_eq, inTrie_buildRoot] at hi
+      obtain ⟨hmem, hbo, rfl⟩ := hi
+      exact ⟨r, hmem, hbo, admitsPath_iff.2 ⟨via, hc, hw⟩, hmo⟩
+  · rintro ⟨hnone, r, hr, hbo, hadm, hmo⟩
+    -- the first search returns None: anything else would be justified by an admitting rule
+    have hres : (dfs (reqOf a method ws) m.root (segments (domainPartOf m.cfg a) (pathPart pathInfo)) []).res = .none := by
+      have hs := dfs_sound (reqOf a method ws) m.root (segments (domainPartOf m.cfg a) (pathPart pathInfo)) []
+      cases hr' : (dfs (reqOf a method ws) m.root (segments (domainPartOf m.cfg a) (pathPart pathInfo)) []).res with
+      | none => rfl
+      | found r' vs =>
+        exfalso
+        rw [hr'] at hs
+        obtain ⟨hok, ps, vs', via, hi, hv, hw, ha⟩ := hs
+        rw [hb.root_eq, inTrie_buildRoot] at hi
+        obtain ⟨hmem, hbo', rfl⟩ := hi
+        have hadm' := (hnone r' hmem hbo').1
+        simp only [admits, hok, if_true, admitsGroups_of_walkVia hw ha] at hadm'
+        have hacc := walkVia_accepts hw
+        rw [hb.kinds r' hmem] at hacc
+        have := convertValues_isSome hacc (hconv r' hmem)
+        cases hcv : convertValues r'.convs vs' with
+        | none => rw [hcv] at this; cases this
+        | some res => simp [hcv] at hadm'
+      | slash =>
+        exfalso
+        rw [hr'] at hs
+        obtain ⟨r', ps, vs', hi, hok, hst, hw⟩ := hs
+        rw [hb.root_eq, inTrie_buildRoot] at hi
+        obtain ⟨hmem, hbo', rfl⟩ := hi
+        have := (hnone r' hmem hbo').2 hok
+        simp [wantsSlash, hst, hw] at this
+    obtain ⟨ms0, wsm, hsm, hmem0⟩ := matchSM_of_first_none (q := reqOf a method ws) (dom := domainPartOf m.cfg a) hnm hres
+    have hi : InTrie m.root r.parts r := by rw [hb.root_eq, inTrie_buildRoot]; exact ⟨hr, hbo, rfl⟩
+    obtain ⟨via, hc, hw⟩ := admitsPath_iff.1 hadm
+    obtain ⟨h1, _⟩ := dfs_acc_complete (reqOf a method ws) m.root hwf _ _ hres r.parts r via hi hc hw
+    -- the rule's method set is non-empty
+    have hmr := hmeth r hr
+    simp only [Rule.methodsOK] at hmr
+    have hne : ms0 ≠ [] := by
+      cases hmm : r.methods with
+      | none => simp [methodOK, hmm] at hmo
+      | some ms =>
+        simp only [hmm] at hmr
+        cases ms with
+        | nil => simp at hmr
+        | cons x t =>
+          have := (hmem0 x).2 (h1 hmo x (by simp [hmm]))
+          intro h0; rw [h0] at this; cases this
+    exact ⟨_, matchAdapter_of_noMatch hsm hne⟩
+
+/-- **match_405_methods_partial.** The methods listed by `MethodNotAllowed` are exactly the union of the
+method sets of the rules that admit the path for another method. -/
+theorem match_405_methods_partial {cfg : MapCfg} {specs : List RuleSpec} {m : RMap}
+    (hm : mkMap cfg specs = some m) (hconv : ConvOK m.rules)
+    (a : Adapter) (pathInfo : Str) (method : Option Str) (qa : QueryArgs) (ws : Option Bool)
+    (hnm : NoMerge m (pathPart pathInfo)) {ms : List Str}
+    (h : matchAdapter m a pathInfo method qa ws = .methodNotAllowed ms) :
+    ∀ x, x ∈ ms ↔ ∃ r ∈ m.rules, r.spec.buildOnly = false ∧
+      AdmitsOtherMethod r (reqOf a method ws) (domainPartOf m.cfg a) (pathPart pathInfo) ∧ x ∈ r.methods.getD [] := by
+  have hb := mkMap_built hm
+  have hwf : WF m.root := by rw [hb.root_eq]; exact WF.buildRoot _
+  obtain ⟨ms0, wsm, hsm, hne, rfl⟩ := matchAdapter_405_inv h
+  obtain ⟨hres, hrest⟩ := first_search_none hb hconv hsm
+  have hms : ∀ x, x ∈ ms0 ↔ x ∈ (dfs (reqOf a method ws) m.root (segments (domainPartOf m.cfg a) (pathPart pathInfo)) []).ms := by
+    intro x
+    rcases hrest with ⟨_, h2, _⟩ | ⟨hmg, h2, _⟩
+    · rw [h2]
+    · rcases hnm with h | h
+      · rw [h] at hmg; cases hmg
+      · rw [h2, h]; simp
+  intro x
+  rw [List.mem_eraseDups, hms]
+  constructor
+  · intro hx
+    obtain ⟨ps, r, via, hi, hmo, hxm, hc, hw⟩ := dfs_ms_sound _ _ _ _ _ hx
+    rw [hb.root_eq, inTrie_buildRoot] at hi
+    obtain ⟨hmem, hbo, rfl⟩ := hi
+    exact ⟨r, hmem, hbo, ⟨admitsPath_iff.2 ⟨via, hc, hw⟩, hmo⟩, hxm⟩
+  · rintro ⟨r, hr, hbo, ⟨hadm, hmo⟩, hxm⟩
+    have hi : InTrie m.root r.parts r := by rw [hb.root_eq, inTrie_buildRoot]; exact ⟨hr, hbo, rfl⟩
+    obtain ⟨via, hc, hw⟩ := admitsPath_iff.1 hadm
+    exact (dfs_acc_complete (reqOf a method ws) m.root hwf _ _ hres r.parts r via hi hc hw).1 hmo x hxm
+
+-- non-vacuity: `PUT /a/` on a map with `Rule('/a/', methods=['POST'])` is a 405, no merging involved
+example : (run {} specsPlain "/a/" "PUT").is405 = true ∧ mergeSlashes (pathPart "/a/".toList) = pathPart "/a/".toList := by
+  decide +kernel
+
+/-- **F03b (negation witness).** Counting every admission — also the `noslash` one of a non-strict
+branch rule — the "exactly when" fails on the unchanged code:
+`Map([Rule('/a/', methods=['POST'])], strict_slashes=False)`: the rule admits `/a` for POST (it is
+matched), no rule admits it for GET, yet `GET /a` is `NotFound`, not `MethodNotAllowed`. -/
+theorem match_405_full_false :
+    ¬ (∀ (cfg : MapCfg) (specs : List RuleSpec) (m : RMap) (a : Adapter) (p : Str) (meth : Str) (q' : Req),
+        mkMap cfg specs = some m → ConvOK m.rules → (∀ r ∈ m.rules, r.methodsOK = true) → NoMerge m (pathPart p) →
+        (∀ r ∈ m.rules, admits r (reqOf a (some meth) none) (domainPartOf m.cfg a) (pathPart p) = none ∧
+            wantsSlash r (domainPartOf m.cfg a) (pathPart p) = false) →
+        (∃ r ∈ m.rules, (admits r q' (domainPartOf m.cfg a) (pathPart p)).isSome = true) →
+        (matchAdapter m a p (some meth) .none none).is405 = true) := by
+  intro H
+  have hw : (match mkMap { strictSlashes := false } specsF03b with
+      | some m => !(matchAdapter m adapter0 "/a".toList (some "GET".toList) .none none).is405 &&
+          m.rules.all (fun r => r.methodsOK && r.convTotal &&
+            (admits r (reqOf adapter0 (some "GET".toList) none) (domainPartOf m.cfg adapter0) (pathPart "/a".toList)).isNone &&
+            !wantsSlash r (domainPartOf m.cfg adapter0) (pathPart "/a".toList)) &&
+          m.rules.any (fun r => (admits r ⟨"POST".toList, false⟩ (domainPartOf m.cfg adapter0) (pathPart "/a".toList)).isSome) &&
+          decide (mergeSlashes (pathPart "/a".toList) = pathPart "/a".toList)
+      | none => false) = true := by decide +kernel
+  cases hmk : mkMap { strictSlashes := false } specsF03b with
+  | none => simp [hmk] at hw
+  | some m =>
+    simp only [hmk, Bool.and_eq_true, List.all_eq_true, List.any_eq_true, Bool.not_eq_true', decide_eq_true_eq,
+      Option.isNone_iff_eq_none] at hw
+    obtain ⟨⟨⟨h1, h2⟩, r, hr, h3⟩, h4⟩ := hw
+    have := H _ specsF03b m adapter0 "/a".toList "GET".toList ⟨"POST".toList, false⟩ hmk
+      (convOK_of_total (fun r hr => (h2 r hr).1.1.2)) (fun r hr => (h2 r hr).1.1.1) (.inr h4)
+      (fun r hr => ⟨(h2 r hr).1.2, (h2 r hr).2⟩) ⟨r, hr, h3⟩
+    rw [h1] at this; cases this
+
 end Wz.Props.C03
